@@ -4,6 +4,7 @@ from lib import flow, vlib
 
 # deviations found on the pinned tree, proposed as KNOWN_FINDINGS.json entries (id, property, what)
 PROPOSED_KF = [
+    dict(id='C19_NONUTF8_LABEL_PANIC', property='C19', what='a request_type or task_id that is not valid UTF-8 panics the handler inside prometheus WithLabelValues (server.go:89, cdc_impl.go:574-575, the latter after the task was stored)'),
     dict(id='C19_DOT_NAME_PANIC', property='C19', what="a '.' in a collection or database name panics the create handler (GetCollectionNameFromFull), now or on every later create of the target"),
     dict(id='C19_RPCPOS_ORPHAN_CKPT', property='C19', what='a create rejected for an undecodable rpc_channel_info.position leaves the collection checkpoint record of the rejected task in the store'),
 ]
